@@ -12,6 +12,7 @@ INVARIANT C01_FaceValue
 INVARIANT C01_MonoX
 INVARIANT C01_MonoT_First
 INVARIANT C01_MMatrix
+INVARIANT C01_ProofForm
 INVARIANT C04_Residual
 INVARIANT C17_ShiftInvariant
 CHECK_DEADLOCK FALSE
